@@ -7,6 +7,7 @@ import Pyrtma.Proofs.ManagerSimConn
 import Pyrtma.Proofs.ManagerSimOwedDep
 import Pyrtma.Proofs.ManagerSimOwedSeg
 import Pyrtma.Proofs.ManagerSimOwedRun
+import Pyrtma.Proofs.ManagerSimOwedPre
 import Pyrtma.Proofs.ManagerSimDrv
 import Pyrtma.Proofs.ManagerStatsRun
 /-!
@@ -16,11 +17,9 @@ Theorems about one iteration of `forward_message`'s recipient loop (`deliverOne`
 `forward_message`, `send_to_loggers` and `send_ack` (`trySend`) and about `send_failed_message` (`failedMsg`), for every
 state, frame, writable set, set of failing sockets and every nested forward `fwd`.
 
-Refinement link: `model_meets_spec_c14_partial` — no C14 entry in `Spec.runSpec` on the model's own run, for every
-history, for configurations that do not forward INFO log lines (`20 < cfg.logLevel`; default 100) — and
-`model_meets_spec_partial`, all eight manager properties in one statement under the same hypothesis.  Without that
-hypothesis everything is linked except the C14 clause of `checkDepartures` on the stretch before the first read of a round
-(the accept branch), where the clause as written is too strict (report, `defect_2`).  The pieces:
+Refinement link: `model_meets_spec_c14` — no C14 entry in `Spec.runSpec` on the model's own run, for every well-formed
+history — `model_meets_spec_seven` (the seven properties of the `ManagerSim*` family) and `model_meets_spec`, all eight
+manager properties in one statement.  The pieces:
 `spec_frame_loop_adds_no_c14_on_model` (the Spec's loop over the frames of a round adds no C14 entry),
 `spec_segment_adds_no_c14_on_model` (`Spec.segment` adds no C14 entry on the events of any frame the model reads in a
 simulated state: the counted lower bounds of `checkData` and of `checkDepartures`, every branch; model-level cores
@@ -364,9 +363,8 @@ example : (Spec.checkDepartures {} { exA with mods := [{ uid := 1, modId := 11, 
 the frames `reads` of a round start being read (after the accept branch and the poll), `a` an abstract state that
 simulates it, `sQ` the state after the frames — and after the periodic section, whose events belong to the last segment —
 `E` the events from `s` to `sQ`.  `Spec.roundBody.go` on `reads` and the segments of `E` (per frame: `checkNoticeOrigin`,
-`checkLoggerWaited`, `segment`) adds no C14 entry.  Not covered: the stretch before the first read of a round, for which
-the C14 clause of `checkDepartures` is too strict as written when the round accepts a connection and reads nothing
-(report, `defect_2`), and hence a whole round / a whole run. -/
+`checkLoggerWaited`, `segment`) adds no C14 entry.  (The stretch before the first read of a round, a whole round and a
+whole run: `model_meets_spec_c14`.) -/
 theorem spec_frame_loop_adds_no_c14_on_model (cfg : Cfg) (ok : CfgOK cfg) (hfuel : cfg.fuel = 0) (hperm : OrdPerm cfg)
     (hmt : cfg.mtClosed ≠ cfg.allTypes) (reads : List Read) (a : Spec.A) (s sQ : State) (E : List Ev) (fuel : Nat)
     (inv : Inv cfg a s) (hwf : ∀ rd ∈ reads, rd.uid ≠ 0) (hlen : reads.length ≤ fuel)
@@ -396,16 +394,14 @@ example : ((modelObs { logLevel := 20 } exOwed).getLast?.map (fun l => l.map (fu
 example : (Spec.runSpec { logLevel := 20 } exOwed (Pyrtma.Drv.Manager.modelRun { logLevel := 20 } exOwed).1 none).errs = [] := by
   decide +kernel
 
-/-- **PARTIAL — the model meets the Spec for C14, for configurations that do not forward INFO log lines** (`20 <
-cfg.logLevel`; the default level is 100).  Run the model on any well-formed history, hand the Spec the history and the events
-the model wrote, round by round: the Spec's verdict contains no C14 entry.  The hypothesis on the log level is there for
-one reason: with INFO lines forwarded, the accept branch of a round writes messages before the round's poll, and for a
-round that accepts a connection and reads nothing the C14 clause of `Spec.checkDepartures` is too strict as written (it
-flags the model's own, correct, run: report, `defect_2`); everything else — every frame, the periodic section, the
-assembly over rounds and the whole-log clause — is linked without it (`spec_frame_loop_adds_no_c14_on_model`,
-`spec_notice_origin_clause_passes_on_model`, `spec_guard_clause_passes_on_model`). -/
-theorem model_meets_spec_c14_partial (cfg : Cfg) (ok : CfgOK cfg) (hfuel : cfg.fuel = 0) (hperm : OrdPerm cfg)
-    (hmt : cfg.mtClosed ≠ cfg.allTypes) (hlog : 20 < cfg.logLevel) (rs : List Round) (hwf : RoundsWF rs) :
+/-- **The model meets the Spec for C14.**  Run the model on any well-formed history, hand the Spec the history and the
+events the model wrote, round by round: the Spec's verdict contains no C14 entry.  Every clause: `checkNoticeOrigin`,
+`checkLoggerWaited`, the counted lower bounds of `checkData` and `checkDepartures` (per frame:
+`spec_frame_loop_adds_no_c14_on_model`; on the stretch before the first read of a round — the accept branch judged by the
+previous poll, the periodic section of a round that reads nothing by the new one, `Spec.checkDeparturesAny`:
+`Proofs/ManagerSimOwedPre.lean`), and the whole-log clause `spec_guard_clause_passes_on_model`. -/
+theorem model_meets_spec_c14 (cfg : Cfg) (ok : CfgOK cfg) (hfuel : cfg.fuel = 0) (hperm : OrdPerm cfg)
+    (hmt : cfg.mtClosed ≠ cfg.allTypes) (rs : List Round) (hwf : RoundsWF rs) :
     Spec.NoErr "C14" (Spec.runSpec cfg rs (modelObs cfg rs) none) := by
   have hord : OrdOK cfg := ordOK_of_perm hperm
   unfold Spec.runSpec
@@ -416,7 +412,7 @@ theorem model_meets_spec_c14_partial (cfg : Cfg) (ok : CfgOK cfg) (hfuel : cfg.f
   have inv0 := init_sim ok hfuel hmt hord
   obtain ⟨_, _, hflat⟩ := rounds_ok ok hfuel hperm hmt rs
     (({} : Spec.A).chk true "C03" "the manager did not play every round of the script") (init cfg) inv0 hwf
-  have h1 := rounds_c14 ok hfuel hperm hmt hlog rs
+  have h1 := rounds_c14 ok hfuel hperm hmt rs
     (({} : Spec.A).chk true "C03" "the manager did not play every round of the script") (init cfg) inv0 hwf h0
   have hall : ((init cfg).out :: modelRounds cfg (init cfg) rs).flatten = (run cfg rs).out := by
     rw [List.flatten_cons]; exact hflat
@@ -426,21 +422,30 @@ theorem model_meets_spec_c14_partial (cfg : Cfg) (ok : CfgOK cfg) (hfuel : cfg.f
   exact (Spec.checkC05_ext _ _ _).noErr (by simp) h1
 
 /-- non-vacuity: the default configuration satisfies every side condition -/
-example : CfgOK ({} : Cfg) ∧ ({} : Cfg).fuel = 0 ∧ ({} : Cfg).mtClosed ≠ ({} : Cfg).allTypes ∧ 20 < ({} : Cfg).logLevel := by
-  refine ⟨⟨by decide, by decide, by decide, fun _ _ h => h⟩, rfl, by decide, by decide⟩
+example : CfgOK ({} : Cfg) ∧ ({} : Cfg).fuel = 0 ∧ ({} : Cfg).mtClosed ≠ ({} : Cfg).allTypes := by
+  refine ⟨⟨by decide, by decide, by decide, fun _ _ h => h⟩, rfl, by decide⟩
+
+/-- **The seven properties of the `ManagerSim*` family** (`proven` — the list the chain carries — and C14). -/
+theorem model_meets_spec_seven (cfg : Cfg) (ok : CfgOK cfg) (hfuel : cfg.fuel = 0) (hperm : OrdPerm cfg)
+    (hmt : cfg.mtClosed ≠ cfg.allTypes) (rs : List Round) (hwf : RoundsWF rs) :
+    ∀ p ∈ proven ++ ["C14"], (p = "C05" → IncRounds 0 rs) → Spec.NoErr p (Spec.runSpec cfg rs (modelObs cfg rs) none) := by
+  intro p hp hinc
+  rcases List.mem_append.mp hp with h | h
+  · exact model_meets_spec_proven ok hfuel hperm hmt rs hwf p h hinc
+  · simp only [List.mem_singleton] at h
+    subst h
+    exact model_meets_spec_c14 cfg ok hfuel hperm hmt rs hwf
 
 /-! ### All eight manager properties in one statement -/
 
-/-- **PARTIAL (log level above INFO) — the model meets the Spec: all eight manager properties.**  Run the model on a
-history, hand `Spec.runSpec` the history and the events the model wrote: the verdict has no entry for any of
-C01 C03 C05 C06 C07 C14 C18 C19.  The side conditions are those of the two proof families together
-(`ManagerSim*`: `CfgOK`, automatic fuel, the iteration order a permutation, CLIENT_CLOSED is not the ALL sentinel,
-well-formed rounds, frames numbered in processing order — for C05; `ManagerStats*`, C18: no manager type is the ALL
-sentinel, a traffic table, -1 is no manager type, fewer than 65536 manager frames of one type in the run; its
-`OrderGood` and `RoundOK` follow from `OrdPerm` and `RoundsWF`), plus `20 < cfg.logLevel` for C14 alone
-(`model_meets_spec_c14_partial`). -/
-theorem model_meets_spec_partial (cfg : Cfg) (ok : CfgOK cfg) (hfuel : cfg.fuel = 0) (hperm : OrdPerm cfg)
-    (hmt : cfg.mtClosed ≠ cfg.allTypes) (hlog : 20 < cfg.logLevel)
+/-- **The model meets the Spec: all eight manager properties.**  Run the model on a history, hand `Spec.runSpec` the
+history and the events the model wrote: the verdict has no entry for any of C01 C03 C05 C06 C07 C14 C18 C19.  The side
+conditions are those of the two proof families together (`ManagerSim*`: `CfgOK`, automatic fuel, the iteration order a
+permutation, CLIENT_CLOSED is not the ALL sentinel, well-formed rounds, frames numbered in processing order — for C05;
+`ManagerStats*`, C18: no manager type is the ALL sentinel, a traffic table, -1 is no manager type, fewer than 65536 manager
+frames of one type in the run; its `OrderGood` and `RoundOK` follow from `OrdPerm` and `RoundsWF`). -/
+theorem model_meets_spec (cfg : Cfg) (ok : CfgOK cfg) (hfuel : cfg.fuel = 0) (hperm : OrdPerm cfg)
+    (hmt : cfg.mtClosed ≠ cfg.allTypes)
     (hna : MgrNotAll cfg) (hsz : 0 < cfg.trafficSize) (hneg : mgrType cfg (-1) = false)
     (rs : List Round) (hwf : RoundsWF rs) (hinc : IncRounds 0 rs) (hnw : NoWrap cfg (mrPair cfg rs).1.hist) :
     ∀ p ∈ Spec.props, (Spec.runSpec cfg rs (Pyrtma.Drv.Manager.modelRun cfg rs).1 none).errs.filter (·.1 == p) = [] := by
@@ -456,12 +461,12 @@ theorem model_meets_spec_partial (cfg : Cfg) (ok : CfgOK cfg) (hfuel : cfg.fuel 
   · exact six _ (by simp [proven])
   · exact six _ (by simp [proven])
   · rw [(modelRun_obsM cfg rs).1]
-    exact (Spec.noErr_iff_filter "C14" _).mp (model_meets_spec_c14_partial cfg ok hfuel hperm hmt hlog rs hwf)
+    exact (Spec.noErr_iff_filter "C14" _).mp (model_meets_spec_c14 cfg ok hfuel hperm hmt rs hwf)
   · have hord : OrderGood cfg := fun l hl => ⟨(hperm l).nodup_iff.mpr hl, fun x => (hperm l).mem_iff⟩
     exact runSpec_e18 ok hfuel hna hord hsz hneg rs (fun r hr => hwf r hr) hnw
   · exact six _ (by simp [proven])
 
-/-- non-vacuity: the hypotheses of `model_meets_spec_partial` hold together — default configuration, a history in which
+/-- non-vacuity: the hypotheses of `model_meets_spec` hold together — default configuration, a history in which
     three clients connect, subscribe (2 to CLIENT_CLOSED, 3 to FAILED_MESSAGE) and publish, and client 1's socket breaks -/
 def exAll : List Round :=
   [{ accept := true }, { accept := true }, { accept := true },
@@ -473,8 +478,8 @@ def exAll : List Round :=
    { failSet := [(1, some .hdr)], reads := [{ uid := 2, h := { k := 7, mtype := 5000 } }], writable := [1, 3] }]
 example : ∀ p ∈ Spec.props,
     (Spec.runSpec {} exAll (Pyrtma.Drv.Manager.modelRun {} exAll).1 none).errs.filter (·.1 == p) = [] := by
-  refine model_meets_spec_partial {} ⟨by decide, by decide, by decide, fun _ _ h => h⟩ rfl (fun l => List.Perm.refl l)
-    (by decide) (by decide) ?_ (by decide) (by decide) exAll (by unfold RoundsWF RoundWF; decide) ?_ ?_
+  refine model_meets_spec {} ⟨by decide, by decide, by decide, fun _ _ h => h⟩ rfl (fun l => List.Perm.refl l)
+    (by decide) ?_ (by decide) (by decide) exAll (by unfold RoundsWF RoundWF; decide) ?_ ?_
   · intro t ht e
     subst e
     revert ht; decide
